@@ -65,6 +65,16 @@ impl Out {
         writeln!(self.w, "{}", v).unwrap();
     }
     pub fn event(&mut self, mut ev: Value) {
+        // the TLA+ Json module has no representation for null: events carry the string "null" instead
+        fn denull(v: &mut Value) {
+            match v {
+                Value::Null => *v = Value::String(String::from("null")),
+                Value::Array(a) => a.iter_mut().for_each(denull),
+                Value::Object(o) => o.values_mut().for_each(denull),
+                _ => {}
+            }
+        }
+        denull(&mut ev);
         ev["scn"] = json!(self.scn);
         writeln!(self.w, "{}", ev).unwrap();
     }
